@@ -26,5 +26,26 @@ package tbtcpg
 //@   property C33
 //@   opt noframe 1
 //@   requires fnLogger != nil
+//@   ensures [at-most-the-maximum-count] err == nil && maxNumberOfDeposits > 0 ==> len(result0) <= maxNumberOfDeposits
 //@   ensures [only-unswept-and-sufficiently-confirmed-deposits-are-proposed] err == nil ==> (forall k int :: 0 <= k && k < len(result0) ==> result0[k] != nil && (skipSwept ==> !result0[k].IsSwept) && (skipUnconfirmed ==> result0[k].Confirmations >= tbtc.DepositSweepRequiredFundingTxConfirmations))
-//@   loop 1 invariant (forall k int :: 0 <= k && k < len(result) ==> result[k] != nil && allocated(result[k]) && (skipSwept ==> !result[k].IsSwept) && (skipUnconfirmed ==> result[k].Confirmations >= tbtc.DepositSweepRequiredFundingTxConfirmations))
+//@   loop 1 invariant len(result) <= cap(result) && cap(result) == resultSliceCapacity && (forall k int :: 0 <= k && k < len(result) ==> result[k] != nil && allocated(result[k]) && (skipSwept ==> !result[k].IsSwept) && (skipUnconfirmed ==> result[k].Confirmations >= tbtc.DepositSweepRequiredFundingTxConfirmations))
+
+// Redemptions: the limit bounds the proposal, and every request found pending
+// on chain takes part in the age filter (nothing is dropped before it).
+//@ ghost pendingFound int
+//@ assume func github.com/keep-network/keep-core/pkg/tbtc.BridgeChain.GetPendingRedemptionRequest
+//@   modifies ghost.pendingFound
+//@   ensures ghost.pendingFound == old(ghost.pendingFound) + ite(result1 && result2 == nil, 1, 0)
+//@   ensures result2 == nil && result1 ==> result0 != nil
+
+//@ func findPendingRedemptions
+//@   property C33
+//@   opt noframe 1
+//@   opt safe index slice -div
+//@   requires fnLogger != nil
+//@   modifies ghost.pendingFound, alloc
+//@   ensures [at-most-the-limit] err == nil && requestsLimit > 0 ==> len(result0) <= requestsLimit
+//@   assert call:Now : [every-request-found-pending-takes-part-in-the-age-filter] len(pendingRedemptions) == ghost.pendingFound - old(ghost.pendingFound)
+//@   loop 1 invariant true
+//@   loop 2 invariant len(pendingRedemptions) == ghost.pendingFound - old(ghost.pendingFound)
+//@   loop 3 invariant len(result) <= cap(result) && cap(result) == resultSliceCapacity
